@@ -12,6 +12,9 @@ import (
 
 // ---- running histories ----------------------------------------------------------------------
 
+// -part=i/n: an enumeration runs only its histories number k with k % n == i (to split a job)
+var partI, partN = 0, 1
+
 type runner struct {
 	seed  int64
 	name  string
@@ -50,6 +53,10 @@ func (rd *runner) enumerate(tag string, count int, what string, script func(h *h
 	ops := dry.opsPer
 	k := 0
 	sub := func(p plan) {
+		if partN > 1 && k%partN != partI {
+			k++
+			return
+		}
 		rd.one(fmt.Sprintf("%s#%d", rd.name, k), tag, count, p, func(h *hist) {
 			script(h)
 			h.client(6)
@@ -68,6 +75,30 @@ func (rd *runner) enumerate(tag string, count int, what string, script func(h *h
 			p := noPlan()
 			p.gcAt = i
 			sub(p)
+		}
+	case "retry", "retryalt", "retryall":
+		// like "fault", with a client that retries the failed request (same range / ticket / body)
+		// once or twice; "retryall": mostly with a restart + the resume monitor right after the retry
+		for i, n := range ops {
+			for pos := 0; pos < n; pos++ {
+				kinds := []fault{fFail, fFailApplied}
+				if what == "retryalt" { // one fault kind per position, alternating
+					kinds = kinds[(i+pos)%2 : (i+pos)%2+1]
+				}
+				for _, f := range kinds {
+					variants := []plan{{retries: 1 + k%2}}
+					if what == "retryall" {
+						variants = []plan{{retries: 1 + k%2, restartAfter: k%3 != 2}}
+					}
+					for _, v := range variants {
+						p := noPlan()
+						p.faultEv = i
+						p.faults = append(make([]fault, pos), f)
+						p.retries, p.restartAfter = v.retries, v.restartAfter
+						sub(p)
+					}
+				}
+			}
 		}
 	case "fault":
 		for i, n := range ops {
@@ -527,6 +558,9 @@ var scenarios = []scenario{
 	{"faultpos2", func(rd *runner) { rd.enumerate("p", 1000, "fault", raceScript) }},
 	{"restarts2", func(rd *runner) { rd.enumerate("r", 1000, "restart", raceScript) }},
 	{"gcruns2", func(rd *runner) { rd.enumerate("s", 1000, "gc", raceScript) }},
+	{"retry", func(rd *runner) { rd.enumerate("p", 1000, "retry", baseScript) }},
+	{"retry2", func(rd *runner) { rd.enumerate("p", 1000, "retryalt", raceScript) }},
+	{"retryolder", func(rd *runner) { rd.enumerate("v", 1100, "retryall", olderScript) }},
 	{"big", func(rd *runner) {
 		rd.run("e", 66500, func(h *hist) {
 			h.pending(65000)
@@ -570,6 +604,29 @@ func baseScript(h *hist) {
 	h.pending(1000)
 	h.upload(700, 1000, "-")
 	h.upload(1000, 1000, "-")
+}
+
+// olderScript: a ticket commits an OLDER pending checkpoint at a mid-tile size that no package
+// ended at while a later upload is in flight (processed, not committed): only a wider partial tile
+// exists and ensureCutTiles has to derive the cut tiles from it; once in the first tile and once
+// above full tiles, then a restart and a resumption
+func olderScript(h *hist) {
+	h.pending(100)
+	t := h.probe()
+	h.pending(200)
+	a, _ := h.begin(0, 200, "-")
+	h.pkgs(a)
+	h.upload(100, 100, t) // cut 100 from d/0/200
+	h.commit(a)
+	h.pending(700)
+	t2 := h.probe()
+	h.pending(760)
+	b, _ := h.begin(200, 760, "-")
+	h.pkgs(b)
+	h.upload(700, 700, t2) // cut 700 from d/2/248
+	h.evRestart()          // b is lost before its commit: the mirror checkpoint stays at the cut
+	h.pending(1000)
+	h.upload(700, 1000, "-")
 }
 
 // raceScript: three overlapping uploads at package granularity, a ticket, commits out of order
